@@ -87,8 +87,10 @@ class Other(models.Model):
 
 class Thing(models.Model):
     n = models.IntegerField(null=True)
+    m = models.IntegerField(null=True)
     f = models.FloatField(null=True)
     s = models.CharField(max_length=40, null=True)
+    u = models.CharField(max_length=40, null=True)
     b = models.BooleanField(null=True)
     d = models.DateTimeField(null=True)
     dd = models.DateField(null=True)
